@@ -168,7 +168,7 @@ func (w *c7world) zapFields(fs []c7field) []zap.Field {
 		case c7Mut:
 			out = append(out, zap.Object(f.key, c7mut{w, f.mut}))
 		case c7Refl:
-			out = append(out, zap.Reflect(f.key, map[string]int{"r": f.ival}))
+			out = append(out, zap.Reflect(f.key, yieldJSON{f.ival}))
 		case c7Err:
 			out = append(out, zap.NamedError(f.key, fmt.Errorf("e%d", f.ival)))
 		case c7Arr:
